@@ -64,7 +64,7 @@ def degenerate(rng, X, y, ykind):
 def oracle(tier, rng, deep=False):
     failures, samples = [], []
     ev = nontriv = 0
-    nrep = 2 if tier == "quick" and not deep else 12
+    nrep = 2 if tier == "quick" and not deep else (6 if tier == "quick" else 12)   # quick + broken obligation: 3x the quick search
     for _ in range(nrep):
         for spec in compos.menu(rng, degenerate):
             X = np.array(spec["X"])
